@@ -83,6 +83,16 @@ def case_strategy(draw: Any, proto: str) -> Dict[str, Any]:
             case["kernel"] = draw(st.sampled_from([0, 1000, 65536, 262144]))
             case["event"] = draw(st.sampled_from(["resume", "resume", "dribble", "reset"]))
             case["sibling"] = False
+        if proto == "h2" and draw(st.integers(0, 5)) == 0:
+            # the request is the one over keep_alive_max_requests: the server announces GOAWAY
+            # on receiving it, after which its HTTP/2 state machine refuses every send - the
+            # application's sends must return all the same (what becomes of the response is
+            # finding C18-2, judged by C18)
+            case["over_limit"] = True
+            case["sibling"] = False
+            # (huge windows: with an exhausted window a send may rightly wait for credit)
+            case["window"] = -2
+            case["event"] = "resume"
     return case
 
 
@@ -223,6 +233,8 @@ def judge_h1(case: Dict[str, Any], obs: Any, mult: int) -> Dict[str, Any]:
 
 async def scenario_h2(env: Any, case: Dict[str, Any], app: Any, ws: bool) -> Dict[str, Any]:
     out: Dict[str, Any] = {}
+    if case.get("over_limit"):
+        return await scenario_over_limit(env, case, app)
     conn_limited = case["window"] == -1
     transport_limited = case["window"] == -2
     settings = {4: (1 << 24) if case["window"] < 0 else case["window"]}
@@ -350,6 +362,28 @@ async def scenario_h2(env: Any, case: Dict[str, Any], app: Any, ws: bool) -> Dic
     return out
 
 
+async def scenario_over_limit(env: Any, case: Dict[str, Any], app: Any) -> Dict[str, Any]:
+    """keep_alive_max_requests = 0: the request is answered with GOAWAY on receipt and the
+    server's HTTP/2 state machine refuses the response.  Nothing further comes from the client
+    (the h2 client library accepts nothing after a GOAWAY): the sends must return by themselves."""
+    conn = env.connect()
+    window = case["window"]
+    client = H2Client(conn, {4: (1 << 24) if window < 0 else window})
+    client.start()
+    client.h2.increment_flow_control_window(1 << 24)
+    sid = client.request([(b":method", b"GET"), (b":scheme", b"http"), (b":authority", b"x"),
+                          (b":path", b"/big")], end_stream=True)
+    await env.settle(120.0)
+    out: Dict[str, Any] = {"conn": conn, "client": client, "sid": sid, "held": 0,
+                           "pending_at_event": pending_sends(app),
+                           "pending_after": pending_sends(app)}
+    big = [i for i in app.instances if i.scope.get("path") == "/big"]
+    out["finished_before_close"] = bool(big) and big[0].exit is not None
+    conn.eof()
+    await env.settle(30.0)
+    return out
+
+
 def judge_h2(case: Dict[str, Any], obs: Any, mult: int, ws: bool) -> Dict[str, Any]:
     be = obs.backend
     if obs.spin:
@@ -374,6 +408,12 @@ def judge_h2(case: Dict[str, Any], obs: Any, mult: int, ws: bool) -> Dict[str, A
         raise Violation("app_never_finished", f"after event {case['event']}: "
                         f"{[(i.scope.get('path'), i.exit) for i in obs.instances]}", backend=be,
                         event=case["event"])
+    if case.get("over_limit"):
+        if not val["finished_before_close"]:
+            raise Violation("app_never_finished", "request over keep_alive_max_requests: the "
+                            "application was still running 120 s after the GOAWAY", backend=be,
+                            event="over_limit")
+        return {"pending": True, "held": 0}
     if case["event"] in ("window_update", "settings_window", "conn_window_update", "resume",
                          "dribble"):
         st_ = client.streams.get(sid, {})
@@ -406,6 +446,8 @@ def run_case(case: Dict[str, Any]) -> CaseInfo:
     proto = case["proto"]
     ws = proto == "ws2"
     cfg = {"keep_alive_timeout": T_BIG}
+    if case.get("over_limit"):
+        cfg["keep_alive_max_requests"] = 0
     pending_any = False
     helds = []
     for mult in (1, 4):
@@ -431,6 +473,8 @@ def run_case(case: Dict[str, Any]) -> CaseInfo:
             helds.append(info["held"])
     classes = ["proto=" + proto, "event=" + case["event"],
                "pending" if pending_any else "no_pending"]
+    if case.get("over_limit"):
+        classes.append("over_limit")
     if proto != "h1":
         classes.append("window=%d" % case["window"])
     return CaseInfo(pending_any, classes, evals=4)
